@@ -26,11 +26,7 @@ pub fn run(prop: &str, thorough: bool) -> Option<Report> {
     let mut rep = Report::new(prop, tier);
     match prop {
         "C01" => c01::run(&mut rep, thorough),
-        "C02" => c02::run(&mut rep, thorough),
-        "C03" => c03::run(&mut rep, thorough),
-        "C04" => c04::run(&mut rep, thorough),
-        "C05" => c05::run(&mut rep, thorough),
-        "C06" => c06::run(&mut rep, thorough),
+        "C02" | "C03" | "C04" | "C05" | "C06" => l2l4_union(&mut rep, prop, thorough),
         "C07" => c07::run_c07(&mut rep, thorough),
         "C08" => c07::run_c08(&mut rep, thorough),
         "C09" => c07::run_c09(&mut rep, thorough),
@@ -48,6 +44,35 @@ pub fn run(prop: &str, thorough: bool) -> Option<Report> {
         _ => return None,
     }
     Some(rep)
+}
+
+/// C02-C06 quantify over the same space (single frames, configurations) and are judged by the same
+/// reference model, which attributes every finding to the property it breaks whatever check is
+/// running.  Each of the five checks therefore explores the UNION of the five frame spaces: its own
+/// stages first (they define its rule text), then the stages of the other four.  A frame family
+/// that one property's author thought of is thereby decided for all five.
+fn l2l4_union(rep: &mut Report, owner: &str, thorough: bool) {
+    let order = ["C02", "C03", "C04", "C05", "C06"];
+    let run_one = |rep: &mut Report, p: &str| match p {
+        "C02" => c02::run(rep, thorough),
+        "C03" => c03::run(rep, thorough),
+        "C04" => c04::run(rep, thorough),
+        "C05" => c05::run(rep, thorough),
+        _ => c06::run(rep, thorough),
+    };
+    run_one(rep, owner);
+    let rule = rep.rule.clone();
+    let assumptions = rep.assumptions.clone();
+    for p in order.iter().filter(|p| **p != owner) {
+        let before = rep.stages_len();
+        rep.secondary = !thorough;
+        run_one(rep, p);
+        rep.secondary = false;
+        rep.prefix_stages(before, &format!("[{}] ", p));
+    }
+    rep.rule = format!("{}; THEN the frame spaces of the other four L2-L4 properties (C02-C06 share one input space and one reference model; stages prefixed with the property they were written for)", rule);
+    rep.assumptions = assumptions;
+    rep.states = rep.sink.classes.len() as u64;
 }
 
 /// The four list combinations (S absent/present x D absent/present), tagged.  "lists" is the
